@@ -37,6 +37,25 @@ func c13init() {
 		x, y := sm2ref.Pub(bi(d))
 		c13keys = append(c13keys, [3][]byte{d, x, y})
 	}
+	// keys 2..6: public keys with leading zero bytes in a coordinate (found by search, a fact about the curve; checked
+	// here): x = 00.., y = 00.., both, x = 0000.., y = 0000.. - whoever strips or re-pads coordinates on the way into ZA
+	// (seeded C13-N: Sign/Verify pad a stripped coordinate on the wrong side) shows only on such keys
+	for i, h := range []string{"8602e07c9f80dca40342e3739dde0597804472eaef42f20d19f9e2f358f776e8", "acb796043b2d323c24afb32550aa494ca44eefc628e56710821477c69563810c",
+		"d94850355fb79b9d0d572c65e5dd7553af32369ac78ff838401e795aefec5f69", "1d1088ff96d0703d9b4a11ed7a4866b1b3f6e12fcb1c6b51bfde9206bf20c6f4", "94c89cf571fe19dd7812112939792edbcd0432aca63fb0ca47a30ba8756f9d15"} {
+		d := vx.UnHex(h)
+		x, y := sm2ref.Pub(bi(d))
+		zx, zy := 0, 0
+		for zx < 32 && x[zx] == 0 {
+			zx++
+		}
+		for zy < 32 && y[zy] == 0 {
+			zy++
+		}
+		if want := [][2]int{{1, 0}, {0, 1}, {1, 1}, {2, 0}, {0, 2}}[i]; zx != want[0] || zy != want[1] {
+			panic("harness: leading-zero key table is wrong")
+		}
+		c13keys = append(c13keys, [3][]byte{d, x, y})
+	}
 }
 
 func c13eval(r *vx.R, c c13case) {
@@ -53,7 +72,11 @@ func c13eval(r *vx.R, c c13case) {
 	id := c13idBuf[:c.IDLen:c.IDLen]
 	{
 		// the previous user of these buffers: another key and another id of the same length
-		other := c13keys[1-c.Key]
+		oi := c.Key ^ 1
+		if c.Key >= 2 {
+			oi = 2 + (c.Key-1)%5
+		}
+		other := c13keys[oi]
 		copy(id, vx.Fill("id-previous-user", c.IDLen))
 		copy(c13pxBuf, other[1])
 		copy(c13pyBuf, other[2])
@@ -185,7 +208,11 @@ func c13eval(r *vx.R, c c13case) {
 				}
 			}
 			if c.MsgLen%16 == 3 || c.MsgLen < 4 {
-				other := c13keys[1-c.Key]
+				oi := c.Key ^ 1
+				if c.Key >= 2 {
+					oi = 2 + (c.Key-1)%5
+				}
+				other := c13keys[oi]
 				zaO, _ := sm2ref.ZA(id, other[1], other[2])
 				eO := sm2ref.E(zaO[:], msg)
 				wantO, errO := sm2ref.Sign(stream(kk), bi(k[0]), eO[:])
@@ -230,7 +257,7 @@ func c13eval(r *vx.R, c c13case) {
 }
 
 func TestVX_C13(t *testing.T) {
-	r := vx.Begin("C13", "za-wrappers", "ZA for every id length 0..8200 plus {16384, 65535, 65536} with two public keys against SM3ref(ENTL||id||a||b||Gx||Gy||x||y) (refusal exactly from 8192 bytes); Sign/SignZa/SignHashed under one nonce stream and Verify/VerifyZa for every message length 0..200 x id length {0,16,53,54,8191} (thorough: 0..300 x {0,1,16,52,53,54,55,118,8191}) against sm2ref on e=SM3ref(ZAref||M); message and id binding; za passed as the head of a record with the key material behind it; Sign with a valid public key that does not belong to the private key; the empty id spelled nil / empty / zero-length slice; before every case the same buffers serve another user and the process makes other uses of the hash package (one-shot SumSM3, an abandoned hash object) and failing calls; [thorough] SignZa/VerifyZa on messages of 2^29-33, 2^29-32 and 2^29 zero bytes (bit length of ZA||M crossing 2^32). Shape=(function, id length, message length, key)")
+	r := vx.Begin("C13", "za-wrappers", "ZA for every id length 0..8200 plus {16384, 65535, 65536} with two public keys against SM3ref(ENTL||id||a||b||Gx||Gy||x||y) (refusal exactly from 8192 bytes); Sign/SignZa/SignHashed under one nonce stream and Verify/VerifyZa for every message length 0..200 x id length {0,16,53,54,8191} (thorough: 0..300 x {0,1,16,52,53,54,55,118,8191}) against sm2ref on e=SM3ref(ZAref||M); message and id binding; za passed as the head of a record with the key material behind it; Sign with a valid public key that does not belong to the private key; the empty id spelled nil / empty / zero-length slice; before every case the same buffers serve another user and the process makes other uses of the hash package (one-shot SumSM3, an abandoned hash object) and failing calls; [thorough] SignZa/VerifyZa on messages of 2^29-33, 2^29-32 and 2^29 zero bytes (bit length of ZA||M crossing 2^32). ; ZA for id lengths {0,16,63,64,8191} and Sign/SignZa/SignHashed/Verify/VerifyZa for id {0,16} x message 0..7 with five public keys whose x or y has one or two leading zero bytes. Shape=(function, id length, message length, key)")
 	defer r.End()
 	selfCheck()
 	if raw, ok := vx.Replay("za-wrappers"); ok {
@@ -267,7 +294,19 @@ func TestVX_C13(t *testing.T) {
 		for ml := 0; ml <= maxMsg; ml++ {
 			run(c13case{"wrap", il, ml, ml % 2, fmt.Sprintf("id%d:msg%d", il, ml)})
 		}
-	} // messages whose bit length (with the 32 bytes of ZA in front) crosses 2^32: thorough tier only (half a gigabyte is
+	}
+	// public keys with leading zero bytes in a coordinate (keys 2..6): ZA and the id-level wrappers
+	for key := 2; key <= 6; key++ {
+		for _, l := range []int{0, 16, 63, 64, 8191} {
+			run(c13case{"za", l, 0, key, fmt.Sprintf("id%d:key%d-leading-zero", l, key)})
+		}
+		for _, il := range []int{0, 16} {
+			for ml := 0; ml <= 7; ml++ {
+				run(c13case{"wrap", il, ml, key, fmt.Sprintf("id%d:msg%d:key%d-leading-zero", il, ml, key)})
+			}
+		}
+	}
+	// messages whose bit length (with the 32 bytes of ZA in front) crosses 2^32: thorough tier only (half a gigabyte is
 	// hashed three times per case). The message is untouched anonymous memory (all zero, costs no RAM); e comes from the
 	// streaming reference.
 	// signatures at the edges of the ranges through the message-level entry points: for e = SM3(za||M) and a nonce k the
